@@ -2,6 +2,7 @@ package codegen
 
 import (
 	"fmt"
+	"go/types"
 	"strings"
 
 	"github.com/vektah/gqlparser/v2/ast"
@@ -66,7 +67,7 @@ func (b *builder) buildDirectives() (map[string]*Directive, error) {
 			newArg := &FieldArgument{
 				ArgumentDefinition: arg,
 				TypeReference:      tr,
-				VarName:            templates.ToGoPrivate(arg.Name),
+				VarName:            directiveArgVarName(arg.Name),
 			}
 
 			if arg.DefaultValue != nil {
@@ -88,6 +89,17 @@ func (b *builder) buildDirectives() (map[string]*Directive, error) {
 	}
 
 	return directives, nil
+}
+
+// directiveArgVarName names the local variable that holds a directive argument in generated
+// code. A name that would shadow one of Go's predeclared identifiers (nil, string, error, ...)
+// inside the generated closure gets the same "Arg" suffix that keywords get.
+func directiveArgVarName(name string) string {
+	varName := templates.ToGoPrivate(name)
+	if types.Universe.Lookup(varName) != nil {
+		return varName + "Arg"
+	}
+	return varName
 }
 
 func (b *builder) getDirectives(list ast.DirectiveList) ([]*Directive, error) {
